@@ -570,19 +570,21 @@ structure Shifts where
 def mkShifts (b lsh : W) : Shifts :=
   { b2klsh := b.truncate 32 - lsh.truncate 32, lsh := lsh.truncate 32, b2k := b.truncate 32 }
 
+/-- `sra_epi64(_mm256_sll_epi64(x, cvtsi64(64 - k)), 64 - k)`: the low `k` bits of `x`, sign-extended
+(the digit extraction of every `nfc_*` chunk; `k` = `b2klsh` or `b2k`) -/
+def digExtract (k : BitVec 32) (x : W) : W := sra_epi64 (sll_epi64 x (cvtsi64_si128 (64#32 - k))) (64#32 - k)
+
 /-- unsigned "a > b" mask via the sign-flip trick, turned into 0/1 -/
 def ugtOne (a b : W) : W := sub_epi64 setzero_si256 (cmpgt_epi64 (xor_si256 a msb) (xor_si256 b msb))
 
 /-- `nfc_middle_chunk`, one lane: `(lo_out, new_lo_c, new_hi_c)` -/
 def middleChunk (s : Shifts) (lo_a hi_a lo_c hi_c : W) : W × W × W :=
   let sll_b2klsh := cvtsi64_si128 (64#32 - s.b2klsh)
-  let sra_b2klsh := 64#32 - s.b2klsh
   let srl_b2klsh := cvtsi64_si128 s.b2klsh
   let sll_lsh := cvtsi64_si128 s.lsh
   let sll_b2k := cvtsi64_si128 (64#32 - s.b2k)
-  let sra_b2k := 64#32 - s.b2k
   let srl_b2k := cvtsi64_si128 s.b2k
-  let lo_dig := sra_epi64 (sll_epi64 lo_a sll_b2klsh) sra_b2klsh
+  let lo_dig := digExtract s.b2klsh lo_a
   let hi_dig := sra_epi64 lo_dig 63#32
   let diff_lo := sub_epi64 lo_a lo_dig
   let borrow := ugtOne lo_dig lo_a
@@ -594,7 +596,7 @@ def middleChunk (s : Shifts) (lo_a hi_a lo_c hi_c : W) : W × W × W :=
   let lo_dpc := add_epi64 lo_dig_sh lo_c
   let carry1 := ugtOne lo_dig_sh lo_dpc
   let hi_dpc := add_epi64 (add_epi64 hi_dig_sh hi_c) carry1
-  let lo_out := sra_epi64 (sll_epi64 lo_dpc sll_b2k) sra_b2k
+  let lo_out := digExtract s.b2k lo_dpc
   let hi_out := sra_epi64 lo_out 63#32
   let diff2_lo := sub_epi64 lo_dpc lo_out
   let borrow2 := ugtOne lo_out lo_dpc
@@ -608,14 +610,9 @@ def middleChunk (s : Shifts) (lo_a hi_a lo_c hi_c : W) : W × W × W :=
 
 /-- `nfc_final_chunk`, one lane -/
 def finalChunk (s : Shifts) (lo_a lo_c : W) : W :=
-  let sll_b2klsh := cvtsi64_si128 (64#32 - s.b2klsh)
-  let sra_b2klsh := 64#32 - s.b2klsh
-  let sll_lsh := cvtsi64_si128 s.lsh
-  let sll_b2k := cvtsi64_si128 (64#32 - s.b2k)
-  let sra_b2k := 64#32 - s.b2k
-  let lo_dig := sra_epi64 (sll_epi64 lo_a sll_b2klsh) sra_b2klsh
-  let lo_dpc := add_epi64 (sll_epi64 lo_dig sll_lsh) lo_c
-  sra_epi64 (sll_epi64 lo_dpc sll_b2k) sra_b2k
+  let lo_dig := digExtract s.b2klsh lo_a
+  let lo_dpc := add_epi64 (sll_epi64 lo_dig (cvtsi64_si128 s.lsh)) lo_c
+  digExtract s.b2k lo_dpc
 
 /-- `add4_i128`, `sub4_i128`, `neg4_i128`, one lane -/
 def add4 (lo_a hi_a lo_b hi_b : W) : W × W :=
